@@ -282,10 +282,8 @@ def setPNR (s : St) (i : Nat) (r : Option (PHeap Int × PL × Nat)) : St × Stri
     let idx := (PL.nodesOf h l).findIdx (· == m)
     (q.1, (if idx < (PL.nodesOf h l).length then s!"ret={idx} " else "ret=dangling ") ++ q.2)
 
-/-- iterator to position `idx` of list `l` (`idx = size` is `end()`, the null iterator without head) -/
-def posAt (h : PHeap Int) (l : PL) (idx : Nat) : Option Nat :=
-  let ns := PL.nodesOf h l
-  if idx = ns.length then some (PL.endPos l) else ns[idx]?
+/-- iterator to position `idx` of list `l`: `PL.posAt` of the model file -/
+def posAt (h : PHeap Int) (l : PL) (idx : Nat) : Option Nat := PL.posAt h l idx
 
 def lstStep (s : St) (op : String) (a : List Int) : St × String :=
   let n (x : Int) : Nat := x.toNat
@@ -300,10 +298,7 @@ def lstStep (s : St) (op : String) (a : List Int) : St × String :=
     match posAt h (getP s (n i)) (n idx) with
     | none => (s, "mem")
     | some p => setPNR s (n i) (PL.constructNode h (getP s (n i)) x p)
-  | "eraseat", [i, idx] =>
-    match posAt h (getP s (n i)) (n idx) with
-    | none => (s, "mem")
-    | some p => setP s (n i) (PL.erase h (getP s (n i)) p)
+  | "eraseat", [i, idx] => setP s (n i) (PL.pstep h (getP s (n i)) (.eraseAt (n idx)))
   | "save", [slot, i, idx] =>
     match (PL.nodesOf h (getP s (n i)))[n idx]? with
     | none => (s, "mem")
